@@ -408,11 +408,26 @@ package spec
 //@ func (t *SymbolTable) ensureSingleDefs$1(def *TerminalDef) string
 //@   requires def != nil
 
+// C07: two singly-defined terminals with the same value are an error, and that error is reported for nothing else
+//@ spec func single1(t *SymbolTable, a grammar.Terminal) bool = (a in t.terminals.table.dom) && len(t.terminals.table.val[a].definitions) == 1 && t.terminals.table.val[a].definitions[0] != nil
+//@ spec func valueOf(t *SymbolTable, a grammar.Terminal) string = t.terminals.table.val[a].definitions[0].Value
+//@ spec func sameValue(t *SymbolTable) bool = exists a grammar.Terminal, b grammar.Terminal :: a != b && single1(t, a) && single1(t, b) && valueOf(t, a) == valueOf(t, b)
 //@ func (t *SymbolTable) ensureDistinctDefs() error
 //@   requires tableOK(t)
+//@   requires forall a grammar.Terminal, k int :: {t.terminals.table.val[a].definitions[k]} (a in t.terminals.table.dom) && 0 <= k && k < len(t.terminals.table.val[a].definitions) ==> t.terminals.table.val[a].definitions[k] != nil
+//@   loop[0] invariant reverse != nil
 //@   loop[0] invariant forall v string, j int :: {reverse[v][j]} 0 <= j && j < len(reverse[v]) ==> reverse[v][j] != nil
+//@   loop[0] invariant forall v string :: {len(reverse[v])} len(reverse[v]) >= 1 ==> (exists a grammar.Terminal :: (a in __vis0) && single1(t, a) && valueOf(t, a) == v)
+//@   loop[0] invariant forall v string :: {len(reverse[v])} len(reverse[v]) >= 2 ==> (exists a1 grammar.Terminal, a2 grammar.Terminal :: a1 != a2 && (a1 in __vis0) && (a2 in __vis0) && single1(t, a1) && single1(t, a2) && valueOf(t, a1) == v && valueOf(t, a2) == v)
+//@   loop[0] invariant forall a grammar.Terminal :: {a in __vis0} {t.terminals.table.val[a]} (a in __vis0) && single1(t, a) ==> len(reverse[valueOf(t, a)]) >= 1
+//@   loop[0] invariant forall a grammar.Terminal, b grammar.Terminal :: {a in __vis0, b in __vis0} {t.terminals.table.val[a], t.terminals.table.val[b]} a != b && (a in __vis0) && (b in __vis0) && single1(t, a) && single1(t, b) && valueOf(t, a) == valueOf(t, b) ==> len(reverse[valueOf(t, a)]) >= 2
+//@   loop[1] invariant forall v string :: {v in __vis1} (v in __vis1) ==> (exists k int :: 0 <= k && k < len(vals) && vals[k] == v)
 //@   loop[2] invariant errOK(errs) && (errs == nil || fresh(unbox(errs, "*errors.MultiError")))
+//@   loop[2] invariant errs != nil ==> (exists k int :: 0 <= k && k < __i2 && len(reverse[vals[k]]) > 1)
+//@   loop[2] invariant forall k int :: {vals[k]} 0 <= k && k < __i2 && len(reverse[vals[k]]) > 1 ==> errs != nil
 //@   ensures errOK(result)
+//@   ensures @same-value-is-an-error sameValue(t) ==> result != nil
+//@   ensures @error-only-for-same-value result != nil ==> sameValue(t)
 
 //@ func (t *SymbolTable) ensureDistinctDefs$1(def *TerminalDef) string
 //@   requires def != nil
@@ -428,6 +443,7 @@ package spec
 //@   requires tableOK(t)
 //@   ensures errOK(result)
 //@   ensures @single-defs result == nil ==> singleDefs(t)
+//@   ensures @distinct-values result == nil ==> !sameValue(t)
 
 // defsSorted(a): a is in the canonical order of definitions (A-SORT: what sort.Quick establishes with the comparator
 // Definitions$1, which looks at kind, name length and name only - never at positions)
